@@ -26,6 +26,7 @@ TileMerger
 """.split()
 
 import numpy as np
+import os
 import warnings
 
 from . import pyramid
@@ -179,6 +180,13 @@ class TileMerger(object):
         img3 = self._pio.read_image(children[3], default="none")
 
         if img0 is None and img1 is None and img2 is None and img3 is None:
+            # There is nothing to merge, but a tile left at this position by
+            # an earlier cascade must not survive: just as `write_image()`
+            # removes a tile that has become fully masked.
+            try:
+                os.unlink(self._pio.tile_path(pos, makedirs=False))
+            except (FileNotFoundError, OSError):
+                pass
             return
 
         if self._buf is not None:
